@@ -32,7 +32,7 @@ class PowHsmMessageInit(Contract):
     def documented_header_and_exact_length(self, value): return powhsm_header(value) and len(value) == HEADER_LEN + BODY_LEN
     def fields_at_the_documented_offsets(self, value):
         return (self.ud_value == value[15:47] and self.public_keys_hash == value[47:79] and self.best_block == value[79:111]
-                and self.last_signed_tx == value[111:119] and self.timestamp == be_value(value[119:127]))
+                and self.last_signed_tx == value[111:119] and self.timestamp == be_value(value[119:127]) and self.timestamp >= 0)
     ensures = [is_a_view_of_the_message_body, documented_header_and_exact_length, fields_at_the_documented_offsets]
     raises = {"Exception": Exc()}
 
